@@ -855,14 +855,21 @@ structure PEarlyStopDecision where
 /-- `study_pb2.Measurement()` -/
 def emptyPMeas : PMeas := ⟨none, 0, []⟩
 
-/-- `to_decisions_proto`: an empty `Measurement()` is passed to the constructor when there is no
-prediction, so the field is always present -/
-def earlyStopDecisionToProto (d : EarlyStopDecision) : PEarlyStopDecision :=
-  ⟨d.id, d.reason, d.shouldStop, some (match d.predicted with | some m => measToProto m | none => emptyPMeas)⟩
+/-- `to_decisions_proto`.  `optPred = true` (the repaired converter): the optional field is set only when the
+decision carries a prediction.  `optPred = false` (the pinned commit): an empty `Measurement()` is passed to the
+constructor when there is no prediction, so the field is always present -/
+def earlyStopDecisionToProto (optPred : Bool) (d : EarlyStopDecision) : PEarlyStopDecision :=
+  ⟨d.id, d.reason, d.shouldStop,
+    match d.predicted with
+    | some m => some (measToProto m)
+    | none => if optPred then none else some emptyPMeas⟩
 
-/-- `from_decisions_proto` converts the field unconditionally (an absent message reads as empty) -/
-def earlyStopDecisionFromProto (cfg : Cfg) (d : PEarlyStopDecision) : EarlyStopDecision :=
-  ⟨d.id, d.reason, d.shouldStop, some (measFromProto cfg (d.predicted.getD emptyPMeas))⟩
+/-- `from_decisions_proto`.  `optPred = true`: `HasField` decides; `optPred = false`: the field is converted
+unconditionally (an absent message reads as empty) -/
+def earlyStopDecisionFromProto (optPred : Bool) (cfg : Cfg) (d : PEarlyStopDecision) : EarlyStopDecision :=
+  ⟨d.id, d.reason, d.shouldStop,
+    if optPred then d.predicted.map (measFromProto cfg)
+    else some (measFromProto cfg (d.predicted.getD emptyPMeas))⟩
 
 def emptyMeas : Meas := ⟨[], 0, 0, ""⟩
 
@@ -879,10 +886,10 @@ structure PEarlyStopDecisions where
   metadata : List UMU
   deriving DecidableEq, Repr
 
-def earlyStopDecisionsToProto (d : EarlyStopDecisions) : PEarlyStopDecisions :=
-  ⟨d.decisions.map earlyStopDecisionToProto, deltaToProto d.metadata⟩
-def earlyStopDecisionsFromProto (cfg : Cfg) (d : PEarlyStopDecisions) : EarlyStopDecisions :=
-  ⟨d.decisions.map (earlyStopDecisionFromProto cfg), deltaFromProto d.metadata⟩
+def earlyStopDecisionsToProto (optPred : Bool) (d : EarlyStopDecisions) : PEarlyStopDecisions :=
+  ⟨d.decisions.map (earlyStopDecisionToProto optPred), deltaToProto d.metadata⟩
+def earlyStopDecisionsFromProto (optPred : Bool) (cfg : Cfg) (d : PEarlyStopDecisions) : EarlyStopDecisions :=
+  ⟨d.decisions.map (earlyStopDecisionFromProto optPred cfg), deltaFromProto d.metadata⟩
 def earlyStopDecisionsNorm (d : EarlyStopDecisions) : EarlyStopDecisions :=
   ⟨d.decisions.map earlyStopDecisionNorm, deltaNorm d.metadata⟩
 
